@@ -1,4 +1,5 @@
 import ArgMapper.Props.C01b
+import ArgMapper.Proofs.Termination
 /-!
 # C06 — calls always return (model level: bounded recursion, no modelled panic)
 
@@ -24,15 +25,20 @@ theorem reach_never_out_of_fuel (c : Ctx) (htr : c.trackReaching = true) (hwf : 
     (fuel : Nat) (reaching : List Vtx) (target : Vtx) (s : CallSt)
     (ht : target ∈ c.g.verts) (htf : target.isFunc = true) (hnr : target ∉ reaching)
     (hfuel : ((funcVerts c.g).filter (fun v => !decide (v ∈ reaching))).length ≤ fuel) :
-    (reach c redefine fuel reaching target s).1 ≠ .error .outOfFuel := by
-  sorry
+    (reach c redefine fuel reaching target s).1 ≠ .error .outOfFuel :=
+  Termination.reach_fuel c htr hwf redefine fuel reaching target s ht htf hnr hfuel
 
 /-- … hence `Call` with the fuel the driver uses never ends in `outOfFuel` -/
 theorem call_never_out_of_fuel (c : Ctx) (htr : c.trackReaching = true) (hwf : c.g.WF)
     (cgr : CallGraphResult) (target : FuncDesc) (hcg : cgr.cg.g = c.g) (htv : cgr.target = .func target.key)
     (ht : Vtx.func target.key ∈ c.g.verts) (fuel : Nat) (hfuel : (funcVerts c.g).length ≤ fuel) (s0 : CallSt) :
     (callWith c cgr target fuel s0).1 ≠ .outOfFuel := by
-  sorry
+  have _ := hcg
+  intro h
+  have h' := Termination.callWith_outOfFuel c cgr target fuel s0 h
+  rw [htv] at h'
+  refine reach_never_out_of_fuel c htr hwf false fuel [] (.func target.key) s0 ht rfl (by simp) ?_ h'
+  simpa [funcVerts] using hfuel
 
 /-- before that repair a two-converter cycle with two inputs each diverged: for every fuel the model of
 the unrepaired `reachTarget` runs out of fuel on this graph (finding F3, replayed on the code as a
@@ -63,7 +69,12 @@ theorem counterexample_mutual_cycle_diverges :
       (reach cycleCtx false fuel [] (.func 0)
         { store := [(.out 1 "", ⟨1, 5, .out 1 ""⟩)], last := none, inputSet := [], memo := [], log := [], count := [], orc := [] }).1
         = .error .outOfFuel := by
-  sorry
+  have h : ([1, 2, 3, 5, 8, 13, 21].all fun fuel => Termination.isOutOfFuel
+      (reach cycleCtx false fuel [] (.func 0)
+        { store := [(.out 1 "", ⟨1, 5, .out 1 ""⟩)], last := none, inputSet := [], memo := [], log := [], count := [], orc := [] }).1)
+      = true := by decide +kernel
+  intro fuel hf
+  exact Termination.eq_of_isOutOfFuel (List.all_eq_true.1 h fuel hf)
 
 /-- **the memoised pointer result can always be reused** and **every function vertex resolves**:
 the panic sites `elemOnStruct` and `unknownVertex` are unreachable when the memoised slice is copied
@@ -74,7 +85,9 @@ theorem no_elem_or_unknown_panic (c : Ctx) (hmc : c.memoCopy = true)
     (reach c redefine fuel reaching target s).1 ≠ .error (.panic .elemOnStruct) ∧
     (reach c redefine fuel reaching target s).1 ≠ .error (.panic .unknownVertex) ∧
     (reach c redefine fuel reaching target s).1 ≠ .error (.panic .emptyPath) := by
-  sorry
+  have h := Termination.reach_panic3 c hmc hfun hwf redefine fuel reaching target s
+  exact ⟨fun he => h _ he (Or.inl rfl), fun he => h _ he (Or.inr (Or.inl rfl)),
+    fun he => h _ he (Or.inr (Or.inr rfl))⟩
 
 /-- **C06_malformed** — a nil option yields the dedicated error, a rejected converter argument an
 option error; neither reaches the resolver -/
@@ -82,6 +95,8 @@ theorem malformed_options (defaults opts : List Opt) :
     (Opt.nilOpt ∈ defaults ++ opts → buildFor defaults opts = .nilArg) ∧
     (Opt.nilOpt ∉ defaults ++ opts → (∃ fs, Opt.conv fs ∈ defaults ++ opts ∧ none ∈ fs) →
       ∃ b, buildFor defaults opts = .optErr b) := by
-  sorry
+  refine ⟨fun h => buildFrom_of_mem _ h Builder.empty, fun hnil h => ?_⟩
+  obtain ⟨fs, hm, hn⟩ := h
+  exact Termination.build_optErr _ hnil fs hm hn
 
 end ArgMapper.C06
